@@ -279,8 +279,46 @@ func relsOf(f fact) (rel, bool) {
 	if !truth {
 		op = negate(op)
 	}
-	return rel{b.X, b.Y, op}, true
+	return normLenRel(rel{b.X, b.Y, op}), true
 }
+
+// normLenRel gives the emptiness tests of a length one spelling: len(X)-1 < 0, len(X) < 1,
+// len(X) <= 0 are len(X) == 0; len(X)-1 >= 0, len(X) >= 1, len(X) > 0 are len(X) != 0
+// (a length is never negative).
+func normLenRel(r rel) rel {
+	if _, ok := constInt(r.x); ok {
+		if _, ok2 := constInt(r.y); !ok2 {
+			r = rel{r.y, r.x, flip(r.op)}
+		}
+	}
+	k, ok := constInt(r.y)
+	if !ok {
+		return r
+	}
+	x := r.x
+	if b, ok := x.(*ssa.BinOp); ok && (b.Op == token.SUB || b.Op == token.ADD) {
+		if d, ok := constInt(b.Y); ok && isLenCall(b.X) {
+			if b.Op == token.SUB {
+				k += d
+			} else {
+				k -= d
+			}
+			x = b.X
+		}
+	}
+	if !isLenCall(x) {
+		return r
+	}
+	zero := ssa.NewConst(constant.MakeInt64(0), types.Typ[types.Int])
+	switch {
+	case (r.op == relLT && k == 1) || (r.op == relLE && k == 0) || (r.op == relEQ && k == 0):
+		return rel{x, zero, relEQ}
+	case (r.op == relGE && k == 1) || (r.op == relGT && k == 0) || (r.op == relNE && k == 0):
+		return rel{x, zero, relNE}
+	}
+	return r
+}
+
 
 // Rels lists all atomic relations known in a fact set.
 func (s factSet) Rels() []rel {
